@@ -170,6 +170,33 @@ def rule_waux(P, which=("_fold", "separate_terminals", "separate_start", "add_EO
 # ---------------------------------------------------------------- COPY
 
 
+LIVE_ITER = {"cfg.py::CFG.to_bytes": "self", "cfglm.py::locally_normalize": None, "cfg.py::CFG.rename": "self", "cfg.py::CFG.map_values": "self",
+             "cfg.py::CFG.unaryremove": "self", "cfg.py::CFG._push_null_weights": "self", "cfg.py::CFG.separate_terminals": "self"}
+
+
+def rule_live_rules(P):
+    r = RuleResult("LIVE-RULES", "conversions and transformations read the grammar's live rule list (`for r in self`), never a memoised "
+                   "view of it (trim(), rhs, cnf): those caches are not invalidated by add(), so rules added after the first use would "
+                   "be missing from the result", "results reflect the grammar as it is now")
+    for q, src in LIVE_ITER.items():
+        f = P.func(q)
+        r.looked_at(f)
+        src = src or f.params[0]
+        sites = [c for c in _adds(f, into_nested=True) if len(c.args) >= 2]
+        loops = {id(a): a for c in sites for a in ancestors(c) if isinstance(a, ast.For)}
+        rule_loops = [a for a in loops.values() if W.citer(f.node, a) in (src, f"{src}.rules", f"enumerate({src})")]
+        other = [a for a in loops.values() if any(k in W.citer(f.node, a) for k in (".trim()", ".rhs", ".cnf", "cotrim()"))]
+        if other:
+            r.add(f, other[0], False, f"`for {norm(other[0].target)} in {norm(other[0].iter)}` reads a memoised view of the grammar: rules added with add() after "
+                  f"the view was first computed are silently missing", slots=dict(iterates=W.citer(f.node, other[0])))
+        elif rule_loops:
+            r.add(f, rule_loops[0], True, slots=dict(iterates=W.citer(f.node, rule_loops[0])))
+        else:
+            r.undecided(f, f.node, "rule loop not recognised", construct=f"{q}: rule loop")
+    r.min_instances = 5
+    return r
+
+
 COPY_FUNCS = {
     "cfg.py::CFG.__getitem__": "self", "cfg.py::CFG.separate_start": "self", "cfg.py::CFG.unfold": "self",
     "cfg.py::CFG.binarize": None, "cfg.py::CFG._trim": "self", "cfg.py::CFG.derivative": "self",
@@ -480,6 +507,25 @@ def rule_factor_bytes(P):
                     ok = False
         r.add(f, cs[0], ok, "" if ok else f"{key}-byte branch emits weights {ws}: the arc weight `{w}` must be carried exactly once",
               slots=dict(branch=key, weights=ws), construct=f"to_bytes {key}-byte branch")
+    # chain connectivity: the last arc of a chain leaves the state the previous arc entered
+    multi = groups.get("multi", [])
+    if len(multi) >= 2:
+        first = next((c for c in multi if not W.enclosing_loops(c) or len(W.enclosing_loops(c)) == 1 and norm(c.args[0]) == i), None)
+        last = next((c for c in multi if norm(c.args[3]) == w), None)
+        inner = [c for c in multi if len(W.enclosing_loops(c)) > 1]
+        if first is not None and last is not None and isinstance(first.args[2], ast.Name) and isinstance(last.args[0], ast.Name):
+            chainvar = first.args[2].id
+            ok = last.args[0].id == chainvar and norm(last.args[2]) == j
+            upd = True
+            for c in inner:
+                # inside the loop:  add_arc(chain, b, nxt, one); chain = nxt
+                lp = W.enclosing_loops(c)[0]
+                upd = upd and norm(c.args[0]) == chainvar and any(isinstance(n, ast.Assign) and W.is_name(n.targets[0], chainvar) and norm(n.value) == norm(c.args[2])
+                                                                     for n in walk_live(lp))
+            r.add(f, last, ok and upd, "" if ok and upd else f"the chain is not connected end to end: the last arc leaves `{norm(last.args[0])}` but the chain variable is "
+                  f"`{chainvar}` (a stale state from an earlier, longer character when this one has only two bytes)", construct="to_bytes: chain connectivity")
+        else:
+            r.undecided(f, multi[0], "multi-byte chain shape not recognised", construct="to_bytes: chain connectivity")
     r.min_instances = 3
     return r
 
@@ -567,7 +613,15 @@ def rule_accum_delta(P):
         ok = num == sorted([dname, f"{rv}.w"]) and not den and len(st) == 1 and W.cnorm(f.node, st[0], c) == f"{rv}.body[{k} + 1:]"
         r.add(f, c, ok, "" if ok else f"`{first_line(c)}`: weight must be {dname}·{rv}.w and the body the suffix after position {k}",
               slots=dict(factors=num, suffix=norm(st[0]) if st else None))
-    r.min_instances = 4
+    # re-deriving a grammar that already contains the slashed symbols must not add their rules again
+    slash_sites = [c for c in _adds(f) if not _verbatim_copy(c) and len(c.args) >= 2]
+    for c in slash_sites:
+        facts = W.cfacts(f.node, c)
+        head = W.cnorm(f.node, c.args[1], c)
+        ok = any(x in facts for x in (f"{head} not in self.N", f"not {head} in self.N"))
+        r.add(f, c, ok, "" if ok else f"`{first_line(c)}` is not guarded by `{head} not in self.N`: deriving a derivative grammar again (same index) "
+              f"adds the slashed rules a second time and doubles the completions", construct=f"derivative: guard of {first_line(c)}")
+    r.min_instances = 6
     return r
 
 
